@@ -12,6 +12,14 @@ def sh(c, timeout=1800):
     return p.returncode, p.stdout + p.stderr
 meta = json.load(open(f"{D}/meta.json"))
 cmd = meta["demo_cmd"]
+OVERRIDE = {
+ "C15-m1": "cp {D}/demo_c15_m1_test.go blockchain/ && go test -vet=off -count=1 -tags 'verif testnet unittest c15demo' -run TestC15M1 -v ./blockchain",
+ "C15-m2": "cp {D}/demo_c15_m2_test.go blockchain/ && go test -vet=off -count=1 -tags 'testnet c15demo' -run TestC15M2 -v ./blockchain",
+ "C14-m2": "mkdir -p seeded_out && rm -rf seeded_out/m2 && cp -r {D} seeded_out/m2 && sh seeded_out/m2/run_demo.sh",
+}
+if name in OVERRIDE:
+    cmd = OVERRIDE[name].format(D=D)
+cmd = re.split(r"\s+#", cmd)[0]
 cmd = re.sub(r"^cd \S+ && ", "", cmd)
 cmd = cmd.split("   (")[0]                      # trailing explanation in parentheses
 main = cmd.split(" ; rm ")[0]
@@ -28,8 +36,8 @@ def place():
 def clean():
     sh("git checkout -- . && git clean -fdq")
 def verdict(out):
-    if re.search(r"^(--- FAIL|FAIL)", out, flags=re.M): return "FAIL"
-    if re.search(r"^(ok|PASS)", out, flags=re.M): return "PASS"
+    if re.search(r"^(--- FAIL|FAIL|VIOLATION)", out, flags=re.M): return "FAIL"
+    if re.search(r"^(ok|PASS|OK:)", out, flags=re.M): return "PASS"
     return "UNKNOWN"
 sh(f"git checkout -q --detach $(git -C /repo rev-parse HEAD)"); clean()
 place(); rc0, out0 = sh(main); v0 = verdict(out0); clean()
